@@ -6,6 +6,9 @@ mod shapes;
 mod c19;
 mod c05;
 mod c04;
+mod vcf;
+mod create;
+mod creategen;
 mod c03;
 mod c13;
 mod npy;
@@ -35,6 +38,13 @@ fn eval_line(ctx: &Ctx, line: &str) -> String {
             "c04" => c04::eval(*ctxp, &opn, &a),
             "c03" => c03::eval(&opn, &a),
             "c13" => c13::eval(*ctxp, &opn, &a),
+            p @ ("c01" | "c02" | "c08" | "c09" | "c10" | "c11" | "c12") => {
+                let _ = p;
+                if opn.ends_with(".mem") { create::eval_mem(&a) }
+                else if opn.ends_with(".cli") { create::eval_cli(*ctxp, &a) }
+                else if opn.ends_with(".same") { create::eval_same(*ctxp, &a) }
+                else { None }
+            }
             _ => None,
         };
         r.unwrap_or_else(|| "BAD-OP".to_string())
@@ -80,6 +90,13 @@ fn main() {
                 "c19" => c19::gen(&ctx, &mut rng, &mut reqs),
                 "c05" => c05::gen(&ctx, &mut rng, &mut reqs),
                 "c04" => c04::gen(&ctx, &mut rng, &mut reqs),
+                "c01" => creategen::gen_c01(&ctx, &mut rng, &mut reqs),
+                "c02" => creategen::gen_c02(&ctx, &mut rng, &mut reqs),
+                "c08" => creategen::gen_c08(&ctx, &mut rng, &mut reqs),
+                "c09" => creategen::gen_c09(&ctx, &mut rng, &mut reqs),
+                "c10" => creategen::gen_c10(&ctx, &mut rng, &mut reqs),
+                "c11" => creategen::gen_c11(&ctx, &mut rng, &mut reqs),
+                "c12" => creategen::gen_c12(&ctx, &mut rng, &mut reqs),
                 "c03" => c03::gen(&ctx, &mut rng, &mut reqs),
                 "c13" => c13::gen(&ctx, &mut rng, &mut reqs),
                 _ => { eprintln!("unknown property {prop}"); std::process::exit(2); }
